@@ -213,7 +213,8 @@ func newDateTime(argumentList []Value, location *Time.Location) float64 {
 			return math.NaN()
 		}
 
-		if year >= 0 && year <= 99 {
+		// ES5 15.9.3.1 / 15.9.4.3 step 8 test ToInteger(y), not y itself.
+		if year = math.Trunc(year); year >= 0 && year <= 99 {
 			year += 1900
 		}
 
